@@ -21,6 +21,7 @@ import XzVerif.Model.LazyDec2
 import XzVerif.Model.LazyXz
 import XzVerif.Model.Src
 import XzVerif.Model.Writer1F
+import XzVerif.Model.Writer1G
 /-
   driver — line protocol around the executable definitions of Spec and Model.
   One request per line on stdin, one reply line on stdout.  Core-only, so it links.
@@ -532,6 +533,30 @@ def handle (line : String) : String :=
         match W1F.new cfg kind F (HT.St.new dc bs) with
         | (_, false) => "open:sink"
         | (s0, true) => let (sf, rs) := W1F.run cfg HT.HT4 kind F s0 cl; show_ rs sf.sunk sf.calls
+    | _, _, _, _, _, _ => "bad-op"
+  -- w1grun <kind> <matcher> <propsByte> <dictCap> <bufSize> <sizeInHeader> <size> <eos> <k> <mode> <call>… → the classic writer
+  -- model that stays exact after the fault (Model/Writer1G.lean): open:sink, or per call n:res@sinkLen | sink bytes | sink calls
+  | "w1grun" :: kd :: mt :: pb :: dc :: bs :: sih :: sz :: eos :: k :: md :: calls =>
+    match pb.toNat?.bind Lzma2.propsOfByte, dc.toNat?, bs.toNat?, sz.toNat?, k.toNat?, md.toNat? with
+    | some p, some dc, some bs, some sz, some k, some md =>
+      let cfg := W1.fill { props := p, dictCap := dc, bufSize := bs, sizeInHeader := boolOf sih, size := sz, eosMarker := boolOf eos }
+      let cl : List W1.Call := calls.map (fun c => if c = "C" then W1.Call.close else W1.Call.write (unhex (c.drop 1).toString))
+      let kind : W1F.Kind := if kd = "1" then .byteWriter else .plain
+      let F := W2F.planOf k md
+      let en : Option W1.Err → String := fun e => match e with
+        | none => "ok" | some .noSpace => "nospace" | some .size => "size" | some (.other _) => "other"
+      let show_ (rs : List (W1G.Res × Nat)) (sunk : ByteArray) (ncalls : Nat) : String :=
+        " ".intercalate (rs.map (fun (r, len) => (match r with
+          | .done n e => s!"{n}:{en e}" | .sink n => s!"{n}:sink" | .panic => "0:panic") ++ s!"@{len}")) ++
+          " | " ++ (if sunk.size = 0 then "-" else hex sunk) ++ s!" | {ncalls}"
+      if mt = "1" then
+        match W1G.new cfg kind F (BT.St.new dc bs) with
+        | (_, false) => "open:sink"
+        | (s0, true) => let (sf, rs) := W1G.run cfg BT.BT4 kind F s0 cl; show_ rs sf.k.sunk sf.k.calls
+      else
+        match W1G.new cfg kind F (HT.St.new dc bs) with
+        | (_, false) => "open:sink"
+        | (s0, true) => let (sf, rs) := W1G.run cfg HT.HT4 kind F s0 cl; show_ rs sf.k.sunk sf.k.calls
     | _, _, _, _, _, _ => "bad-op"
   -- srcops <hex(data)|-> <fails 0/1> <together 0/1> <fragMode> <seed> op… → the accessors of Model/Src.lean (F<n> io.ReadFull,
   -- B ReadByte, C<n> io.CopyN, L<N>/<want> the doubly limited copy) on a fragmenting source; per op bytes:status, then pos
